@@ -125,7 +125,11 @@ func (s *SenderInterceptor) BindRemoteStream(
 			sequenceNumber: header.SequenceNumber,
 			ecn:            0, // ECN is not supported (yet).
 		}
-		s.packetChan <- p
+		// the loop stops receiving once the interceptor is closed: do not block the reader then
+		select {
+		case s.packetChan <- p:
+		case <-s.close:
+		}
 
 		return i, attr, nil
 	})
